@@ -7,9 +7,10 @@
    ([None] only when an allocator answer supplied with a [New] is not a free pool address).
    Configuration flags (variants): [c_ordered] — writes and deletes of one session take effect in issue order
    (/repo HEAD since 657fd59, pkg/opdb/ordered.go); [c_reserve] — PPPoE restore re-reserves addresses (HEAD since
-   7da5674); [c_delretry] — a checkpoint Delete that fails is repeated until it succeeds (HEAD since f3eb7c5,
-   OrderedWriter.DeleteEventually).  /repo HEAD is [repaired p …] = all three true; no C12 finding is open.  The
-   false values are the behaviour before the respective fix and are kept only for the _refuted witnesses. *)
+   7da5674); [c_delretry] — a checkpoint Delete that fails is repeated in the background (HEAD since f3eb7c5,
+   OrderedWriter.DeleteEventually); [c_delforever] — the repetition never gives up (NOT in HEAD: finding
+   delete-retry-gives-up, repair proposed).  /repo HEAD = [head_cfg]; [repaired] additionally has [c_delforever].
+   The false values of the first three are the behaviour before the respective fix, kept for _refuted witnesses. *)
 From OV Require Import Common.Base C12.Model C12.Proofs C12.Window C12.OWModel C12.OWProofs C12.SQModel.
 Open Scope N_scope.
 
@@ -17,7 +18,7 @@ Open Scope N_scope.
    point (a crash may occur anywhere in [ops], and one more is appended here), a session released at any earlier
    point is neither in the in-memory index nor in the store — before and after the restart. *)
 Theorem C12_released_stay_gone :
-  forall c ops s, c_ordered c = true -> Forall (delok c) ops -> run c init ops = Some s ->
+  forall c ops s, c_ordered c = true -> run c init ops = Some s ->
   (forall i, In i (released s) -> aget i (live s) = None /\ aget i (store s) = None) /\
   (forall p f now i, In i (released s) ->
      let s' := fst (do_crash c s p f now) in
@@ -51,32 +52,78 @@ Proof.
 Qed.
 Print Assumptions C12_released_stay_gone_refuted.
 
-(* A release whose checkpoint Delete fails.  [Forall (delok c) ops] (hypothesis of the theorem above): the
-   configuration repeats a failed Delete until it succeeds ([c_delretry]: /repo HEAD since f3eb7c5), or the history
-   contains no failing Delete ([RelF]).  Before f3eb7c5 deleteSessionCheckpoint only logged the Store error: the image
-   stayed in the store and the released session was restored after a restart (historical witness). *)
-Definition no_delretry_cfg (p : proto) : cfg :=
-  {| c_proto := p; c_ordered := true; c_reserve := true; c_delretry := false; c_n4 := 4; c_n6 := 4; c_npd := 2 |}.
-Theorem C12_released_stay_gone_delete_fault_refuted :
-  exists p ops s, run (no_delretry_cfg p) init ops = Some s /\ In 0 (released s) /\ aget 0 (live s) <> None /\
-                  aget 0 (store s) <> None.
-Proof.
-  exists PPPoE, [New (est 0) (Some 0) None None; Cks 0; RelF 0; Crash true None 0%Z].
-  eexists. split; [vm_compute; reflexivity|]. cbn. repeat split; auto; discriminate.
-Qed.
-Print Assumptions C12_released_stay_gone_delete_fault_refuted.
+(* "Released" in the theorem above means: the release has completed AND its checkpoint Delete has taken effect in the
+   store.  A Delete that the Store refuses is a fault of the store, not an ordering of writes; what the code does then
+   is modelled step by step: [RelF i] — the release completes in memory (addresses freed, event published) although
+   the Delete failed: the session is in [delpend], NOT in [released], its image is still in the store;
+   [DelRetry i ok] — one background repetition (OrderedWriter.DeleteEventually, 50 ms, 100 ms, ... later);
+   [GiveUp i] — /repo HEAD stops after deleteRetryAttempts = 6 failed repetitions ([c_delforever = false]).
+   THE RESIDUAL WINDOW, exactly: from the failed Delete until a repetition succeeds, a stop restores the session
+   ([C12_delete_pending_window], [_witness]); a successful repetition closes it ([C12_delete_retry_closes]); on HEAD
+   the window never closes once the repetitions have given up ([C12_delete_gaveup_refuted]: finding
+   delete-retry-gives-up, repair [c_delforever] = keep retrying). *)
+Theorem C12_delete_retry_closes :
+  forall s i, aget i (delpend s) = Some false ->
+  let s' := fst (do_delretry s i true) in
+  In i (released s') /\ aget i (store s') = None /\ aget i (delpend s') = None.
+Proof. exact delete_retry_closes. Qed.
+Print Assumptions C12_delete_retry_closes.
 
-(* non-vacuity of the weaker disjunct of [delok] (a configuration WITHOUT delete retry): a history without [RelF] — with releases,
-   reordered completions, a failed Put, a stop inside a release and restarts — satisfies it *)
+Theorem C12_delete_pending_window :
+  forall c ops s, c_ordered c = true -> run c init ops = Some s ->
+  forall i g, aget i (delpend s) = Some g ->
+  aget i (live s) = None /\
+  (forall r (p : bool) f now, aget i (store s) = Some r -> expired c now r = false ->
+     exists r', aget i (live (fst (do_crash c s p f now))) = Some r' /\ same_core r r').
+Proof. exact delete_pending_window. Qed.
+Print Assumptions C12_delete_pending_window.
+
+Example C12_delete_pending_witness :
+  (* a stop while the failed Delete is still being repeated restores the session ... *)
+  (exists s r, run (repaired PPPoE 4 4 2) init
+       [New (est 0) (Some 0) None None; Cks 0; RelF 0; DelRetry 0 false; Crash true None 0%Z] = Some s /\
+     aget 0 (live s) = Some r /\ released s = []) /\
+  (* ... once a repetition has succeeded it does not *)
+  (exists s, run (repaired PPPoE 4 4 2) init
+       [New (est 0) (Some 0) None None; Cks 0; RelF 0; DelRetry 0 false; DelRetry 0 true; Crash true None 0%Z] = Some s /\
+     aget 0 (live s) = None /\ released s = [0]).
+Proof.
+  split.
+  - eexists. eexists. split; [vm_compute; reflexivity|]. split; reflexivity.
+  - eexists. split; [vm_compute; reflexivity|]. split; reflexivity.
+Qed.
+Print Assumptions C12_delete_pending_witness.
+
+(* /repo HEAD gives up after six failed repetitions: later the store works again, but nothing repeats the Delete any
+   more — the released session is restored by every later restart.  With [c_delforever] the same history ends with
+   the session gone. *)
+Definition head_cfg (p : proto) : cfg :=
+  {| c_proto := p; c_ordered := true; c_reserve := true; c_delretry := true; c_delforever := false;
+     c_n4 := 4; c_n6 := 4; c_npd := 2 |}.
+Definition gaveup_ops : list op :=
+  [New (est 0) (Some 0) None None; Cks 0; RelF 0; DelRetry 0 false; DelRetry 0 false; DelRetry 0 false;
+   DelRetry 0 false; DelRetry 0 false; DelRetry 0 false; GiveUp 0; DelRetry 0 true; Crash true None 0%Z].
+Theorem C12_delete_gaveup_refuted :
+  (exists s r, run (head_cfg IPoE) init gaveup_ops = Some s /\ aget 0 (live s) = Some r /\ aget 0 (store s) <> None) /\
+  (exists s, run (repaired IPoE 4 4 2) init gaveup_ops = Some s /\ aget 0 (live s) = None /\ released s = [0]).
+Proof.
+  split.
+  - eexists. eexists. split; [vm_compute; reflexivity|]. split; [reflexivity|discriminate].
+  - eexists. split; [vm_compute; reflexivity|]. split; reflexivity.
+Qed.
+Print Assumptions C12_delete_gaveup_refuted.
+
+(* non-vacuity of the hypotheses for /repo HEAD ([head_cfg]): a history with releases, reordered completions, a
+   failed Put, a stop inside a release and restarts (and, for [delok], no failing Delete) satisfies them *)
 Example C12_head_hypotheses_nonvacuous :
   let ops := [New (est 0) (Some 0) None None; New (est 1) (Some 1) None None; Ck 0; Ck 1; Poison 1 false; Rel 0;
               Done 1 false; Done 0 false; Cks 1; RelStop 1 true true None 0%Z; Crash false None 0%Z] in
-  c_ordered (no_delretry_cfg IPoE) = true /\ Forall (delok (no_delretry_cfg IPoE)) ops /\ reserves (no_delretry_cfg IPoE) /\
-  pools_small (no_delretry_cfg IPoE) /\
-  exists s, run (no_delretry_cfg IPoE) init ops = Some s /\ released s = [0] /\ aget 0 (live s) = None /\
+  c_ordered (head_cfg IPoE) = true /\ Forall (delok (head_cfg IPoE)) ops /\ reserves (head_cfg IPoE) /\
+  pools_small (head_cfg IPoE) /\
+  exists s, run (head_cfg IPoE) init ops = Some s /\ released s = [0] /\ aget 0 (live s) = None /\
             (exists r, aget 1 (live s) = Some r /\ s_v4 r = Some 1).
 Proof.
-  cbn zeta. split; [reflexivity|]. split; [repeat constructor; right; exact I|]. split; [left; reflexivity|].
+  cbn zeta. split; [reflexivity|]. split; [repeat constructor|]. split; [left; reflexivity|].
   split; [unfold pools_small, static_base; cbn; repeat split; discriminate|].
   eexists. split; [vm_compute; reflexivity|]. repeat split. eexists. split; reflexivity.
 Qed.
@@ -128,7 +175,7 @@ Print Assumptions C12_stop_during_release_witness.
    loss are real: a stop inside the window loses the session. *)
 Theorem C12_established_has_image :
   forall c ops s,
-  c_ordered c = true -> Forall (delok c) ops -> run c init ops = Some s ->
+  c_ordered c = true -> run c init ops = Some s ->
   forall i r t, aget i (live s) = Some r -> s_stamp r = Some t -> In (i, t) (completed s) ->
   (exists r0, aget i (store s) = Some r0 /\ same_core r0 r) /\
   (forall (p : bool) f now, expired c now r = false ->
@@ -152,16 +199,16 @@ Print Assumptions C12_window_closed_by_done.
 
 Theorem C12_loss_window :
   forall c ops s,
-  c_ordered c = true -> Forall (delok c) ops -> run c init ops = Some s ->
+  c_ordered c = true -> run c init ops = Some s ->
   forall i r, aget i (live s) = Some r ->
   s_stamp r = None \/
   (exists t, s_stamp r = Some t /\ ~ In (i, t) (completed s)) \/
   (exists r0, aget i (store s) = Some r0 /\ same_core r0 r).
 Proof.
-  intros c ops s O D R i r G. destruct (s_stamp r) as [t|] eqn:ST; auto. right.
+  intros c ops s O R i r G. destruct (s_stamp r) as [t|] eqn:ST; auto. right.
   assert (DEC : forall a b : N * N, {a = b} + {a <> b}) by (decide equality; apply N.eq_dec).
   destruct (in_dec DEC (i, t) (completed s)) as [IN|NI].
-  - right. apply (established_has_image c ops s O D R i r t G ST IN).
+  - right. apply (established_has_image c ops s O R i r t G ST IN).
   - left. eauto.
 Qed.
 Print Assumptions C12_loss_window.
@@ -329,6 +376,17 @@ Theorem C12_reserved_before_alloc :
 Proof. exact reserved_before_alloc. Qed.
 Print Assumptions C12_reserved_before_alloc.
 
+(* [Forall (delok c) ops]: the history contains no failing checkpoint Delete.  With one, the released session's
+   addresses are free again while its image is still in the store (the residual window above): another subscriber can
+   be given the address and be checkpointed, and a stop before the Delete lands restores BOTH — the reservation of
+   the second one hits a conflict that is only logged. *)
+Example C12_reserved_window_witness :
+  exists s r0 r1, run (repaired IPoE 4 4 2) init
+     [New (est 0) (Some 0) None None; Cks 0; RelF 0; New (est 1) (Some 0) None None; Cks 1; Crash true None 0%Z] = Some s /\
+   aget 0 (live s) = Some r0 /\ aget 1 (live s) = Some r1 /\ s_v4 r0 = Some 0 /\ s_v4 r1 = Some 0.
+Proof. eexists. eexists. eexists. split; [vm_compute; reflexivity|]. repeat split. Qed.
+Print Assumptions C12_reserved_window_witness.
+
 (* the restore step on its own, from ANY stopped state (not only reachable ones): if the store images of different
    sessions share no in-pool address, the restart leaves every restored session's in-pool addresses leased to it *)
 Theorem C12_reserved_by_restore :
@@ -345,7 +403,7 @@ Print Assumptions C12_reserved_by_restore.
 (* before 7da5674 the PPPoE restore never re-reserved: after the restart the allocator may hand session 1 the address of the
    restored session 0 (write ordering repaired, so this is the second defect alone) *)
 Definition pp_no_reserve : cfg :=
-  {| c_proto := PPPoE; c_ordered := true; c_reserve := false; c_delretry := true; c_n4 := 4; c_n6 := 4; c_npd := 2 |}.
+  {| c_proto := PPPoE; c_ordered := true; c_reserve := false; c_delretry := true; c_delforever := true; c_n4 := 4; c_n6 := 4; c_npd := 2 |}.
 Theorem C12_reserved_before_alloc_refuted :
   exists ops s r0 r1, run pp_no_reserve init ops = Some s /\
     aget 0 (live s) = Some r0 /\ aget 1 (live s) = Some r1 /\ s_v4 r0 = Some 0 /\ s_v4 r1 = Some 0.
